@@ -1199,7 +1199,17 @@ func (c *Ctx) stableFieldKey(tname, fname string) string {
 					}
 				}
 			}
-			s := tname + ".(" + typeStr(f.Type()) + ")"
+			owner := tname
+			if role := c.txRoleOf(tname); role != tname {
+				owner = role // a transaction struct is named by the packets it handles
+			} else if hn := c.gatewayHandlerType(); hn != "" && tname == "gateway."+hn {
+				owner = "gateway.session-handler"
+			}
+			ft := typeStr(f.Type())
+			if nm := namedOf(derefType(f.Type())); nm != nil && nm.Obj().Pkg() != nil && strings.HasPrefix(nm.Obj().Pkg().Path(), modPath) && !nm.Obj().Exported() {
+				ft = "unexported " + types.TypeString(nm.Underlying(), nil)
+			}
+			s := owner + ".(" + ft + ")"
 			if total > 1 {
 				s += fmt.Sprintf("#%d", ord+1)
 			}
